@@ -26,7 +26,7 @@ SHARDS = 8
 
 
 def tmp(ctx):
-    d = os.path.join(vlib.CACHE, "tmp", "c16")
+    d = os.path.join(vlib.CACHE, "tmp", "c16-%d" % os.getpid())
     os.makedirs(d, exist_ok=True)
     return d
 
